@@ -175,5 +175,28 @@ class MathUF:
     def ceil(self, x):
         return x.__ceil__() if isinstance(x, SF) else math.ceil(x)
 
+    def frexp(self, x):
+        """(m, e) with x = m * 2^e, 0.5 <= |m| < 1 - exact bit surgery on a normal binary64 (zero / inf / nan pass through)"""
+        if not isinstance(x, SF):
+            return math.frexp(x)
+        cur, t = engine.CUR, x.t
+        if cur.branch(z3.Or(z3.fpIsZero(t), z3.fpIsInf(t), z3.fpIsNaN(t))):
+            return x, 0
+        if cur.branch(z3.fpIsSubnormal(t)):
+            raise engine.Unsupported("frexp of a subnormal binary64")
+        bv = z3.fpToIEEEBV(t)
+        m = z3.fpFP(z3.Extract(63, 63, bv), z3.BitVecVal(1022, 11), z3.Extract(51, 0, bv))
+        return SF(m), SI(z3.ZeroExt(53, z3.Extract(62, 52, bv)) - 1022)
+
+    def ldexp(self, m, e):
+        """m * 2^e, rounded once (exact unless the result is subnormal) - for exponents whose power of two is a normal binary64"""
+        if not isinstance(m, (SF, SI)) and not isinstance(e, SI):
+            return math.ldexp(m, e)
+        et = SI.lift(e)
+        if not engine.CUR.branch(z3.And(et >= -1022, et <= 1023)):
+            raise engine.Unsupported("ldexp with an exponent outside the normal range")
+        p2 = z3.fpFP(z3.BitVecVal(0, 1), z3.Extract(10, 0, et + 1023), z3.BitVecVal(0, 52))
+        return SF(z3.fpMul(RNE, SF.lift(m), p2))
+
     def __getattr__(self, n):
         return getattr(math, n)
